@@ -96,6 +96,30 @@ type sched struct {
 	dying    bool
 	finished chan struct{}
 	steps    int
+	allQuiet bool
+}
+
+// SetQuiet switches "set-up mode" on or off: while on, every point takes the
+// default successor and offers no alternatives (used to build the initial
+// state of a scenario deterministically inside the scheduler).
+func SetQuiet(on bool) {
+	if s != nil {
+		s.allQuiet = on
+	}
+}
+
+// CurrentOrigin returns the name of the nearest ancestor (or the thread
+// itself) that was started with GoNamed by the harness, i.e. not by a
+// rewritten go statement: the request a server-side goroutine belongs to.
+func CurrentOrigin() string {
+	if s == nil || s.cur == nil {
+		return ""
+	}
+	t := s.cur
+	for strings.HasPrefix(t.name, "go#") && t.parent >= 0 {
+		t = s.threads[t.parent]
+	}
+	return t.name
 }
 
 var s *sched // the execution in progress (one at a time per process)
@@ -322,9 +346,9 @@ func (sc *sched) schedule(self *thread) {
 			}
 		}
 		n := len(ordered)
-		quiet := selfEnabled && self.pending.Quiet
+		quiet := (selfEnabled && self.pending.Quiet) || sc.allQuiet
 		if quiet {
-			n = 1
+			n = 1 // the default successor, no alternatives offered
 		}
 		alts := n
 		if early != nil && !quiet {
